@@ -64,6 +64,9 @@ ASSUMPTIONS = [
     "of C07_row_equals_string is gone with fix commit c357095; C07_shuffle_invariant (full, temporal issues included) speaks about "
     "files whose onsets are all numeric, as the property's clause does",
     "implementation-side oracle: testing on generated tables, bounded by the generators (histogram in evidence)",
+    "same-time merging is excluded from the row/shuffle theorems by hypothesis (distinct effective times); the case 'a "
+    "Delay group lands exactly on the onset of one other file row' is checked by the oracle only: that row must carry "
+    "exactly the codes of string validation of its annotation plus the landed groups (generated on purpose)",
     "tested only (not representable in the model): the kind of column labels (text vs. the numbers of a headerless "
     "file; sort_issues TypeError repaired by 2e53521) and the case-insensitive matching of definition names by the "
     "temporal bookkeeping (a Section variable of the theorems; the oracle has its own bookkeeping, SpecOnsets)",
@@ -794,9 +797,11 @@ def temporal_expected(exp, desc):
     for tm, k, txt in pseudo:
         pieces.append((tm, seq, k, txt))
         seq += 1
+    nbase = seq - len(pseudo)
     pieces.sort(key=lambda x: (x[0], x[1]))
     ov = SpecOnsets()
     out = Counter()
+    landing = {}      # row k -> (text of its time point, rows owning the Delay groups that land on it)
     for tm, grp in itertools.groupby(pieces, key=lambda x: x[0]):
         grp = list(grp)
         text = ",".join(g[3] for g in grp)
@@ -805,6 +810,12 @@ def temporal_expected(exp, desc):
             n = ov.time_point(hs)
             if n:
                 out[grp[0][2]] += n
+        real = [g for g in grp if g[1] < nbase]
+        if len(real) == 1 and len(grp) > 1:
+            # exactly one file row really has this onset; Delay groups of other rows land on it: the time point is that
+            # row's (its annotation plus the landed groups), and what is wrong there is reported at ITS file row
+            landing[real[0][2]] = (",".join(g[3] for g in grp if g[3]), {g[2] for g in grp if g[1] >= nbase})
+    out.landing = landing
     return out
 
 
@@ -883,8 +894,13 @@ def oracle(case, tab, exp, res, tag):
     texp = temporal_expected(exp, desc) if (desc["has_onset"] and not dirty_temporal) else None
     for k in clean_rows:
         r = desc["rows"][k]
-        if tied is None or k in tied:
-            continue          # same-time merging with another row: not covered by the statement
+        landed = None
+        if tied is not None and k in tied and texp is not None and k in getattr(texp, "landing", {}):
+            text_k, owners = texp.landing[k]
+            if all(o in clean_rows for o in owners):
+                landed = text_k
+        if (tied is None or k in tied) and landed is None:
+            continue          # same-time merging of several file rows: not covered by the statement
         got = Counter(code for code, sev, col in by_row.get(k + adj, []) if sev == ERR)
 
         def expected(text, got=got, k=k, r=r):
@@ -904,7 +920,7 @@ def oracle(case, tab, exp, res, tag):
                 want["TEMPORAL_TAG_ERROR"] += sum(1 for tg in hs.get_all_tags()
                                                   if tg.short_base_tag in ("Onset", "Offset", "Inset", "Delay", "Duration"))
             return +g, +want
-        got, want = expected(r["series"])
+        got, want = expected(r["series"] if landed is None else landed)
         if got != want:
             f6 = None
             live = [desc["texts"][cid] for _cr, cid, skip in r["cells"] if not skip]
@@ -1232,6 +1248,22 @@ def gen_case(rng, tier):
             elif "cat" in cols:
                 r[cols.index("cat")] = rng.choice(["d", "e", "i", "j"])
         rows.append(r)
+    if (has_onset and "HED" in cols and n >= 2 and profile not in ("fine",) and not numeric and not na_onset
+            and rng.random() < 0.12):
+        # a Delay group of one row lands EXACTLY on the onset of another row, and that row (cells clean one by one)
+        # has something only the row-level / temporal checks see: it must be reported at that row
+        a, b = rng.sample(range(n), 2)
+        if onsets[a] > onsets[b]:
+            a, b = b, a
+        gap = Fraction(onsets[b] - onsets[a], 8)
+        spell = repr(float(gap)) + rng.choice([" s", " seconds", " second", " Seconds"])
+        ms = float(gap * 1000)
+        if ms * 0.001 + onsets[a] / 8.0 == onsets[b] / 8.0 and rng.random() < 0.4:
+            spell = (repr(ms) if not ms.is_integer() else str(int(ms))) + rng.choice([" ms", " milliseconds"])
+        hi = cols.index("HED")
+        rows[a][hi] = rng.choice(["", "Green, ", "Item/Sound, "]) + f"(Delay/{spell}, ({rng.choice(['Red', 'Square', 'Blue'])}))"
+        rows[b][hi] = rng.choice(["Red, Red", "(Red, Blue), (Red, Blue)", "(Def/MyDef, Offset)", "(Def/MyDef, Inset)",
+                                  "Blue, (Green), Blue"])
     if n <= 3 and rng.random() < 0.5:
         perms = [list(p) for p in itertools.permutations(range(n))][1:]
     else:
@@ -1405,6 +1437,9 @@ def corpus():
     mk([["1.0", "(Delay/2 s,(Red))", "a", "x"], ["2.0", "Blue", "b", "n/a"]], perms=[[1, 0]])
     mk([["0.0", "(Delay/1 s, Def/MyDef, Onset)", "n/a", "n/a"], ["0.5", "(Def/MyDef, Offset)", "n/a", "n/a"],
         ["2.0", "(Def/MyDef, Offset)", "n/a", "n/a"]], perms=[[2, 1, 0], [1, 0, 2]])
+    # a Delay group that lands exactly on another row's onset; that row has a row-level fault and clean cells
+    mk([["1.0", "(Delay/1.5 s, (Square))", "n/a", "n/a"], ["2.5", "Blue, (Green), Blue", "n/a", "n/a"],
+        ["4.0", "Item/Sound", "n/a", "n/a"]], perms=[[1, 0, 2], [2, 1, 0]])
     # times that are numbers but not finite as floats, on rows that carry row-level / temporal issues
     mk([["1.0", "(Def/MyDef, Onset)", "n/a", "n/a"], ["Infinity", "Red, Red", "n/a", "n/a"], ["2.0", "Blue", "n/a", "n/a"],
         ["-inf", "(Def/MyDef, Offset)", "n/a", "n/a"]], perms=[[1, 3, 0, 2], [3, 2, 1, 0]])
